@@ -218,6 +218,52 @@ Example C18_exw_projection :
       E (L "r") [] [E (L "a") [] [T (L "after")]] ].
 Proof. vm_compute. reflexivity. Qed.
 
+(* ---------------- "has a filter" does not depend on the filter's shape (round 4) ---------------- *)
+(* A reply to a request WITH a filter never raises the switch signal, whatever the filter looks like (any [ftree],
+   in particular a single leaf [FN n []] -- as an lxml element such a filter is falsy) and whatever the handler state.
+   Together with C18_nofilter_switch: the switch is decided by "the request carries a filter" alone. *)
+Theorem C18_filter_no_switch : forall e s top a id f o,
+  is_reply top = true -> dict_get s_msgid a = Some id -> has_listener e = true ->
+  dict_get id (table e) = Some (Some f) ->
+  step e s (Start top a) <> Raise ESwitch o.
+Proof. exact c18_filter_no_switch. Qed.
+Print Assumptions C18_filter_no_switch.
+
+(* a single-leaf filter selecting one leaf below the reply's first element (which then is the one-level wrapper) *)
+Definition exl_f : ftree := FN (L "name") [].
+Definition exl_env : env := mkenv true [(L "m1", Some exl_f); (L "m2", None)].
+Definition exl_doc : xt :=
+  E (L "rpc-reply") [(L "message-id", L "m1")]
+    [ E (L "system-information") []
+        [ E (L "name") [(L "unit", L "0")] [T (L "re0")];
+          E (L "model") [] [T (L "mx960")] ] ].
+
+Example C18_ex_leaf_filter_in_class : wf_reply_w exl_env exl_f exl_doc.
+Proof.
+  constructor.
+  - exists (L "rpc-reply"), [(L "message-id", L "m1")]. eexists. exists (L "m1"). repeat split.
+    apply WFwtop_wrap; [reflexivity | reflexivity | reflexivity | |].
+    + apply (WFwk_root _ _ exl_f); [reflexivity | |].
+      { apply WFks_T; [discriminate|]. constructor. }
+      apply WFwk_other; [repeat split | reflexivity | repeat constructor | constructor].
+    + constructor.
+  - reflexivity.
+  - split; reflexivity.
+Qed.
+
+Example C18_ex_leaf_filter_output :
+  runb exl_env init (ev exl_doc) =
+  (L "<rpc-reply message-id=""m1""><system-information>
+<name unit=""0"">re0</name>
+</system-information>
+</rpc-reply>
+", Fin (mkst [FN (L "system-information") [exl_f]] (Some (L "name")) 2 false None
+             [L "rpc-reply"; L "system-information"] false false)) /\
+  project_w exl_f exl_doc =
+  E (L "rpc-reply") [(L "message-id", L "m1")]
+    [ E (L "system-information") [] [ E (L "name") [(L "unit", L "0")] [T (L "re0")] ] ].
+Proof. vm_compute. split; reflexivity. Qed.
+
 (* ---------------- the class restrictions are needed (exhibited by the model) ---------------- *)
 (* text directly in the wrapper is not written (the wrapper's start does not set _currenttag), although the wrapper
    is kept: with non-blank text there the statement is false *)
